@@ -133,8 +133,19 @@ def run_history(case, ctx):
         prev = theta
         for k in range(steps + 1):
             if k > 0:
-                style = pr.choice(ansatzlib.STYLES + ["minus_prev", "same_zero_pattern", "same_zero_pattern"])
-                if style == "minus_prev":
+                style = pr.choice(ansatzlib.STYLES + ["minus_prev", "same_zero_pattern", "same_zero_pattern", "revisit", "revisit"])
+                earlier = [h_[-1] for h_ in hist if h_[0] in ("build", "update") and len(h_[-1]) == nvp]
+                if style == "revisit" and len(earlier) >= 2:
+                    # optimisers re-evaluate points: exactly the same values as at an earlier step (not the latest one)
+                    theta = list(pr.choice(earlier[:-1]))
+                    if pr.random() < 0.6:
+                        # ... with a structure-changing point (exact zeros -> rebuild) in between
+                        mid = ansatzlib.rand_params(pr, nvp, pr.choice(["zeros", "some_zero", "one_zero"]))
+                        hist.append(["update", "before_revisit", mid])
+                        if kind == "ADAPT":
+                            ans.set_var_params(list(mid))
+                        ans.update_var_params(list(mid))
+                elif style == "minus_prev":
                     theta = [-x for x in prev]
                 elif style == "same_zero_pattern":
                     # frozen / masked amplitudes: new values, zeros stay where they were (if there were none, mask some first)
@@ -147,7 +158,7 @@ def run_history(case, ctx):
                     fresh_vals = ansatzlib.rand_params(pr, len(prev), "uniform")
                     theta = [0.0 if x == 0.0 else y for x, y in zip(prev, fresh_vals)]
                 else:
-                    theta = ansatzlib.rand_params(pr, nvp, style)
+                    theta = ansatzlib.rand_params(pr, nvp, "uniform" if style == "revisit" else style)
                 if len(theta) != nvp:
                     theta = ansatzlib.rand_params(pr, nvp, "uniform")
                 if kind == "ADAPT" and k == steps // 2:
